@@ -311,6 +311,16 @@ pub fn fti_extremes(fec: u8) -> Vec<Fti> {
                             f.m = Some(if e % 2 == 0 { 8 } else { 0 });
                             f.g = Some(1);
                             out.push(f.clone());
+                            // GF(2^m) scheme-specific word: field width m and symbols per packet G at their extremes
+                            if fec == 2 && mn == b && (l == 65535 || l == 1 << 20) {
+                                for m in [1u8, 2, 7, 16, 31, 32, 33, 64, 255] {
+                                    for g in [0u8, 1, 2, 255] {
+                                        f.m = Some(m);
+                                        f.g = Some(g);
+                                        out.push(f.clone());
+                                    }
+                                }
+                            }
                         }
                     }
                     _ => {
